@@ -218,10 +218,14 @@ def prep_afqmc(
             # )
             uhfCoeffs[:, nbasis:] = q
         else:
+            # pyscf's ROHF can converge to a non-aufbau occupation pattern (e.g. 2 0 1 0);
+            # the trial occupies the leading columns, so order them doubly occupied,
+            # singly occupied, virtual
+            occ_order = np.argsort(-np.asarray(mf.mo_occ)[norb_frozen:], kind="stable")
             q, r = np.linalg.qr(
                 basis_coeff[:, norb_frozen:]
                 .T.dot(overlap)
-                .dot(mf.mo_coeff[:, norb_frozen:])
+                .dot(mf.mo_coeff[:, norb_frozen:][:, occ_order])
             )
             sgn = np.sign(r.diagonal())
             q = np.einsum("ij,j->ij", q, sgn)
